@@ -248,8 +248,8 @@ PROPS = {
                         'the gpsd back end inherits the no-op'],
     },
     'C12': {
-        'source_transfer': ['TransferServer'],
-        'source_tie': ['Server', 'UbxParser'],
+        'source_transfer': ['TransferServer', 'TransferTty'],
+        'source_tie': ['Server', 'UbxParser', 'Tty'],
         'jobs': [{'component': 'srv', 'profile': 'mixed', 'quick': 2400, 'thorough': 4000, 'project': 'sent+same'},
                  {'component': 'frame', 'profile': 'threads', 'quick': 1, 'thorough': 1},
                  {'component': 'subitem', 'profile': 'grid', 'quick': 1, 'thorough': 1},
@@ -259,8 +259,8 @@ PROPS = {
         'assumptions': ['partial: the OS serial driver and gpsd themselves; gpsd replies are ASCII'],
     },
     'C18': {
-        'source_transfer': ['TransferUbx', 'TransferNmea'],
-        'source_tie': ['UbxParser', 'NmeaParser'],
+        'source_transfer': ['TransferUbx', 'TransferNmea', 'TransferTty'],
+        'source_tie': ['UbxParser', 'NmeaParser', 'Tty'],
         'jobs': [{'component': 'scan', 'profile': 'scan', 'quick': 3000, 'thorough': 8000}],
         'trusted': ['stub serial port with a timed byte script on the virtual clock'],
         'assumptions': ['partial: real serial timing; a read takes 1..T ticks'],
